@@ -1570,7 +1570,22 @@ pub fn increase_ix(rng: &mut Rng, la: &LiqAccounts, pool: &decode::Pool, lo: i32
         0 => ix::increase_liquidity(la, liq, max_a, max_b),
         1 | 2 => ix::increase_liquidity_v2(la, liq, max_a, max_b),
         _ => {
-            let (ma, mb) = (rng.log_u64(58), rng.log_u64(58));
+            let (mut ma, mut mb) = (rng.log_u64(58), rng.log_u64(58));
+            // now and then exactly 0 for the token the deposit does not involve (a one-sided deposit), or for either token
+            match rng.below(10) {
+                0 | 1 => {
+                    if pool.tick_current_index < lo {
+                        mb = 0;
+                    } else if pool.tick_current_index >= hi {
+                        ma = 0;
+                    } else if rng.chance(1, 2) {
+                        ma = 0;
+                    } else {
+                        mb = 0;
+                    }
+                }
+                _ => {}
+            }
             let (minp, maxp) = match rng.below(3) {
                 0 => (MIN_SQRT_PRICE, MAX_SQRT_PRICE),
                 1 => (pool.sqrt_price, pool.sqrt_price),
